@@ -47,6 +47,8 @@ var corpus = []string{
 	"x: lİnk\n",
 	"a\nlayers: {l: {b}}\nscenarios: {s: {c}}\nsteps: {t: {d}; u: {e}}\n",
 	"layers: {l: {b}}\na\nscenarios: {s: {c}}\n",
+	"steps: {f: {db}}\n*.style.fill: red\nsteps: {x: {q}}\ndb\n",
+	"meow \\\r\n\tok: x\r\n",
 }
 
 func compile(src string, files map[string]string) (proj map[string]any, cfg []string, errs string) {
@@ -175,6 +177,9 @@ func srcFeatures(m *d2ast.Map) []string {
 				if nb.MapKey.HasTripleGlob() {
 					set["glob:triple"] = true
 				}
+				if nb.MapKey.HasGlob() {
+					set["glob:any"] = true
+				}
 				walkPath(nb.MapKey.Key, false)
 				for _, e := range nb.MapKey.Edges {
 					walkPath(e.Src, true)
@@ -230,6 +235,9 @@ func emitCase(c *hl.Ctx, origin, src string, files map[string]string, feat []str
 		return
 	}
 	sf := srcFeatures(m)
+	if strings.Contains(src, "\\\r\n") {
+		sf = append(sf, "text:backslash-crlf")
+	}
 	out["sf"] = sf
 	for _, f := range sf {
 		c.Count("src:" + f)
